@@ -146,6 +146,42 @@ fn names_json(ctx: &Context, sys: &TransitionSystem) -> J {
     })
 }
 
+/// names that contain, start with or end in the words the reader uses for its default names
+const TRICKY_NAMES: [&str; 18] = ["fsm_state", "data_input", "x_bad", "y_output_3", "c_constraint", "_state_shadow", "_input_", "state", "input",
+    "a.b_state_12", "bad", "_bad_x", "next_output", "r_state_0", "_output", "in_constraint_7", "_state_", "output_state"];
+
+/// The names clause on a PARSED system with explicit names: the written text of `sys`, with the names on its input /
+/// state / output lines replaced by tricky ones, is parsed (system P); P's explicit distinct names must survive
+/// write + read.  Also used as is (rename = false) for systems that were parsed from a file.
+fn names_cycle(out: &mut Out, id: &str, ctx: &mut Context, sys: &TransitionSystem, text: Option<&str>) {
+    let parsed: Option<TransitionSystem> = match text {
+        None => Some(sys.clone()),
+        Some(t) => {
+            let mut k = 0usize;
+            let renamed: Vec<String> = t.lines().map(|l| {
+                let toks: Vec<&str> = l.split_whitespace().collect();
+                let named = toks.len() >= 2 && ((["input", "state"].contains(&toks[1]) && toks.len() == 4) || (toks[1] == "output" && toks.len() == 4));
+                if named {
+                    let nm = if k < TRICKY_NAMES.len() { TRICKY_NAMES[k].to_string() } else { format!("{}x{}", TRICKY_NAMES[k % TRICKY_NAMES.len()], k) };
+                    k += 1;
+                    format!("{} {} {} {}", toks[0], toks[1], toks[2], nm)
+                } else { l.to_string() }
+            }).collect();
+            if k == 0 { return; }
+            match guarded(|| patronus::btor2::parse_str(ctx, &(renamed.join("\n") + "\n"), Some(&sys.name))) { Ok(Some(p)) => Some(p), _ => None }
+        }
+    };
+    let p = match parsed { Some(p) => p, None => return };
+    let syms: Vec<ExprRef> = p.inputs.iter().cloned().chain(p.states.iter().map(|s| s.symbol)).collect();
+    let nprop = p.bad_states.iter().chain(p.constraints.iter()).filter(|e| syms.contains(e)).count();
+    let cls = if nprop >= 2 { "symbol-is-property-more-than-once" } else { "" };
+    let t2 = match guarded(|| patronus::btor2::serialize_to_str(ctx, &p)) { Ok(t) => t, Err(_) => return };
+    match guarded(|| patronus::btor2::parse_str(ctx, &t2, Some(&sys.name))) {
+        Ok(Some(q)) => out.put(&json!({"ev":"Names","id":format!("{id}:parsed"),"kind":"names","kindres":"ok","loc":cls,"first":names_json(ctx, &p),"second":names_json(ctx, &q)})),
+        _ => out.put(&json!({"ev":"Names","id":format!("{id}:parsed"),"kind":"names","kindres":"second cycle failed","loc":"","first":names_json(ctx, &p),"second":names_json(ctx, &p)})),
+    }
+}
+
 fn round_trip(out: &mut Out, id: &str, ctx: &mut Context, sys: &TransitionSystem, nenv: u32) {
     let text = match guarded(|| patronus::btor2::serialize_to_str(ctx, sys)) {
         Ok(t) => t,
@@ -196,6 +232,7 @@ pub fn run_c09(args: &[String]) {
         let g = gen_sys(&mut ctx, &mut rng, &cfg, "");
         if !writer_ok(&ctx, &g.sys) { skipped += 1; continue; }
         round_trip(&mut out, &format!("r{k}"), &mut ctx, &g.sys, 24);
+        if let Ok(t) = guarded(|| patronus::btor2::serialize_to_str(&ctx, &g.sys)) { names_cycle(&mut out, &format!("r{k}"), &mut ctx, &g.sys, Some(&t)); }
         n_sys += 1;
     }
     let max_kb = flag_u(args, "--max-kb", 0);
@@ -204,6 +241,7 @@ pub fn run_c09(args: &[String]) {
             if let Some((mut ctx, sys)) = patronus::btor2::parse_file(&f) {
                 let id = f.replace("/repo/inputs/", "");
                 round_trip(&mut out, &id, &mut ctx, &sys, flag_u(args, "--nenv", 8) as u32);
+                names_cycle(&mut out, &id, &mut ctx, &sys, None);
                 n_sys += 1;
             }
         }
